@@ -673,6 +673,69 @@ def twin_task(task, ctx: Ctx):
                 ctx.distinct("nontrivial", (loopname, "twins", first_created, kind))
 
 
+# ---------------------------------------------------------------------- part 5: exceptions that are not Exception subclasses
+class Quit(BaseException):
+    pass
+
+
+def baseexc_task(task, ctx: Ctx):
+    """an alarm / watch / idle callback raises SystemExit, KeyboardInterrupt or an application BaseException: run() re-raises that very object"""
+    (loopname,) = task
+    env.reset("utf-8")
+    for site in ("alarm", "watch", "idle"):
+        if loopname == "trio" and site == "idle":
+            continue  # (exceptions from idle callbacks under trio: see the known finding)
+        for exc_cls in (SystemExit, KeyboardInterrupt, Quit):
+            ctx.count("evaluations")
+            case = {"part": "baseexc", "loop": loopname, "site": site, "exc": exc_cls.__name__}
+            logging.disable(logging.CRITICAL)
+            w = World(())
+            evl, mkfd, closer = MAKERS[loopname](w)
+            raised = exc_cls("from " + site)
+            state = {"armed": True}
+
+            def boom(*_a):
+                if state["armed"]:
+                    state["armed"] = False
+                    raise raised
+
+            def end(*_a):
+                raise ExitMainLoop
+
+            def nop(*_a):
+                w.readable.discard(7)
+
+            if site == "alarm":
+                evl.alarm(0.5, boom)
+            elif site == "watch":
+                evl.watch_file(mkfd(7), lambda *_a: (w.readable.discard(7), boom()))
+                w.readable.add(7)
+            else:
+                evl.enter_idle(boom)
+                evl.alarm(0.5, nop)
+            evl.alarm(2.0, end)
+            res = "returned"
+            try:
+                with contextlib.redirect_stdout(io.StringIO()), contextlib.redirect_stderr(io.StringIO()):
+                    evl.run()
+            except Horizon as e:
+                res = f"HORIZON:{e}"
+            except BaseException as e:  # noqa: BLE001
+                res = "raised-same" if e is raised else f"raised-other:{type(e).__name__}"
+            finally:
+                logging.disable(logging.NOTSET)
+                if closer:
+                    with contextlib.suppress(BaseException):
+                        closer()
+            if w.horizon and res == "returned":
+                res = f"HORIZON:{w.horizon}"
+            ctx.obs(loopname, site, exc_cls.__name__, res)
+            if res != "raised-same":
+                ctx.violation("raise-once", f"C13/raise-once/{loopname}/base-exception/{site}", case, f"{exc_cls.__name__} raised by the {site} callback: run() {res}")
+            else:
+                ctx.distinct("nontrivial", (loopname, "baseexc", site, exc_cls.__name__))
+
+
 def alarm_orders(nmax):
     return [p for n in range(1, nmax + 1) for p in itertools.permutations(range(1, n + 1))]
 
@@ -707,6 +770,7 @@ def run(tier, R):
     R.run_tasks(alarm_task, atasks, recheck=0.02, task_timeout=1800)
     R.run_tasks(prerun_task, [(ln,) for ln in LOOPS], recheck=0.0, task_timeout=600)
     R.run_tasks(twin_task, [("asyncio",), ("tornado",)], recheck=0.0, task_timeout=600)
+    R.run_tasks(baseexc_task, [(ln,) for ln in LOOPS], recheck=0.0, task_timeout=600)
     ev = int(R.ctx.counts["evaluations"])
     nt = len(R.ctx.sets.get("nontrivial", ()))
     cov = {
@@ -720,7 +784,7 @@ def run(tier, R):
         f"schedule with at most {2 if tier == 'quick' else 3} deviations (trio: {1 if tier == 'quick' else 2}) from the default environment answer (which readable descriptors a wait "
         "reports, in which order; trio: batch reversal per scheduler tick); each execution judged by the contract acceptor. Part 2: every registration order of n alarms with distinct due "
         f"times (n up to {ALARM_NMAX[tier]}), with no removal, each alarm removed before run(), and each alarm removed from the callback of the earliest other alarm: firing order, firing "
-        "times and remove_alarm results. Part 3: three readable watches and two idle callbacks registered before run(), every subset of them removed again before run(); alarm callbacks are plain functions, functools.partial objects and callable instances. Part 4: two asyncio / tornado event-loop objects over one underlying loop, created in either order. non-trivial = distinct (loop, program, callback trace, result)",
+        "times and remove_alarm results. Part 3: three readable watches and two idle callbacks registered before run(), every subset of them removed again before run(); alarm callbacks are plain functions, functools.partial objects and callable instances. Part 4: two asyncio / tornado event-loop objects over one underlying loop, created in either order. Part 5: SystemExit / KeyboardInterrupt / an application BaseException raised by an alarm, watch or idle callback on every loop. non-trivial = distinct (loop, program, callback trace, result)",
         "exhaustive": True,
         "bound": {"deviations": 2 if tier == "quick" else 3, "trio_deviations": 1 if tier == "quick" else 2},
         "distinct_outcome_sets": len(R.ctx.sets.get("outcomes", ())),
@@ -742,6 +806,12 @@ def replay(case, ctx):
         return tuple(tup(x) if isinstance(x, (list, tuple)) else x for x in p)
 
     loopname = case["loop"]
+    if case.get("part") == "baseexc":
+        baseexc_task((loopname,), ctx)
+        return
+    if case.get("part") == "twins":
+        twin_task((loopname,), ctx)
+        return
     if case.get("part") == "prerun":
         rw, ri = tuple(case["rm_watch"]), tuple(case["rm_idle"])
         calls, rm, res = run_prerun(loopname, rw, ri)
